@@ -57,7 +57,7 @@ Section FP.
     assert (Hi: (i < length ps)%nat) by (apply nth_error_Some; congruence).
     assert (Hw: wrap64 (Z.of_nat i + 1) = Z.of_nat i + 1) by (apply wrap64_small; unfold two63 in *; lia).
     rewrite Hw. destruct (Z.ltb_spec (Z.of_nat (length ps)) (Z.of_nat i + 1)); [lia|].
-    unfold nth_param. destruct (Z.ltb_spec (Z.of_nat i) 0); [lia|]. rewrite Nat2Z.id, Hn. reflexivity.
+    unfold nth_param. destruct (Z.ltb_spec (Z.of_nat i) 0); [lia|]. destruct (Z.leb_spec (Z.of_nat (length ps)) (Z.of_nat i)); [lia|]. cbn [orb]. rewrite Nat2Z.id, Hn. reflexivity.
   Qed.
 
   (* a selector beyond the arguments is an error, a negative one a recovered failure: never a value *)
@@ -70,7 +70,7 @@ Section FP.
     unfold to_integer. rewrite Hc. cbn [bind as_integer].
     assert (Hw: wrap64 (i + 1) = i + 1) by (apply wrap64_small; unfold two63 in *; lia). rewrite Hw.
     destruct (Z.ltb_spec (Z.of_nat (length ps)) (i + 1)); [eauto|].
-    unfold nth_param. destruct (Z.ltb_spec i 0); [eauto|]. exfalso. lia.
+    unfold nth_param. destruct (Z.ltb_spec i 0); [cbn [orb]; eauto|]. exfalso. lia.
   Qed.
 
   (* Abs is type-preserving and exact on integers and longs (the most negative value wraps, as in Go) *)
